@@ -148,10 +148,14 @@ def _r2(chk, repo):
     from .common import method_effects
     pass
     body = method_effects(repo, td, asm)
-    CALLT = f"self.PDE_form(self._parameter,{t})"
-    ok = bool(body) and all(e["kind"] in ("fall", "return") and e["stores"] == {"self.diff_op": pn(CALLT + "[0]"), "self.rhs": pn(CALLT + "[1]"), "self.initial_condition": pn(CALLT + "[2]")} for e in body)
     a0 = method_effects(repo, td, repo.method(td, "assemble")[1])
-    ok = ok and bool(a0) and all(e["kind"] in ("fall", "return") and e["stores"] == {"self._parameter": func_params(repo.method(td, 'assemble')[1])[1]} for e in a0)
+    # the private attribute in which assemble() keeps the parameter is whatever it is called: assemble_step must read THAT attribute
+    apar = func_params(repo.method(td, 'assemble')[1])[1]
+    held = sorted({k_ for e in a0 for k_, v_ in e["stores"].items() if v_ == apar})
+    HELD = held[0] if len(held) == 1 else "self._parameter"
+    CALLT = f"self.PDE_form({HELD},{t})"
+    ok = bool(body) and all(e["kind"] in ("fall", "return") and e["stores"] == {"self.diff_op": pn(CALLT + "[0]"), "self.rhs": pn(CALLT + "[1]"), "self.initial_condition": pn(CALLT + "[2]")} for e in body)
+    ok = ok and bool(a0) and all(e["kind"] in ("fall", "return") and e["stores"] == {HELD: apar} for e in a0)
     chk.add("C18-R2", f"{td.qual}.assemble_step", ok, site(repo, asm), "(diff_op, rhs, initial_condition) = PDE_form(parameter, t)", f"assemble_step is {body}; assemble is {a0}", asm)
     u = b0["u"]
     found = {}
@@ -199,14 +203,30 @@ def _r2(chk, repo):
             chk.unknown("C18-R2", f"{inst}/{kind}_euler", site(repo, sv), f"the update is not reached on a straight path through the loop body ({kw_}: {res_})", sv)
             continue
         env = res_[0]
-        val = _ct(unparse(_Sub(env).visit(_clone(upd.value))))
         up = f"{u}[:,{i}]"
+        # locals bound before the loop (an identity matrix built once) are read through; the size of an identity matrix is written in one way: every spelling
+        # of "the number of rows of u" (len(u[:, idx]), u.shape[0], len(u)) is the token _N
+        from ..flow import Expander as _Ex
+        _ex = _Ex(sv, g)
+        vexp = _Sub(env).visit(_clone(upd.value))
+        bound_in_loop = {x.id for x in ast.walk(lp) if isinstance(x, ast.Name) and isinstance(x.ctx, ast.Store)}
+        vexp = _ex.expand(vexp, g.node_of(lp), stop=frozenset(bound_in_loop | {u}))
+        rows = {norm(ast.parse(r_, mode="eval").body) for r_ in (f"len({up})", f"{u}.shape[0]", f"len({u})")}
+
+        class _Rows(ast.NodeTransformer):
+            def visit_Call(self, c):
+                self.generic_visit(c)
+                if call_name(c) in ("np.eye", "np.identity", "numpy.eye") and len(c.args) == 1 and not c.keywords and norm(c.args[0]) in rows:
+                    return ast.copy_location(ast.Call(func=ast.parse("np.eye", mode="eval").body, args=[ast.Name(id="_N", ctx=ast.Load())], keywords=[]), c)
+                return c
+        val = _ct(unparse(ast.fix_missing_locations(_Rows().visit(vexp))))
+        _ctr = lambda t_: _ct(unparse(ast.fix_missing_locations(_Rows().visit(ast.parse(t_, mode="eval").body))))
         if kind == "forward":
             dt = f"(self.time_steps[{i}+1]-{tt})"
-            wants = [_ct(f"({dt}*self.diff_op+np.eye(len({up})))@{up}+{dt}*self.rhs"), _ct(f"(np.eye(len({up}))+{dt}*self.diff_op)@{up}+{dt}*self.rhs")]
+            wants = [_ctr(f"({dt}*self.diff_op+np.eye(len({up})))@{up}+{dt}*self.rhs"), _ctr(f"(np.eye(len({up}))+{dt}*self.diff_op)@{up}+{dt}*self.rhs")]
         else:
             dt = f"({tt}-self.time_steps[{i}])"
-            wants = [_ct(f"self._solve_linear_system(np.eye(len({up}))-{dt}*self.diff_op,{up}+{dt}*self.rhs,self._linalg_solve,self._linalg_solve_kwargs)")]
+            wants = [_ctr(f"self._solve_linear_system(np.eye(len({up}))-{dt}*self.diff_op,{up}+{dt}*self.rhs,self._linalg_solve,self._linalg_solve_kwargs)")]
         if val not in wants:
             if _ct(dt)[1:-1] not in val:
                 problems.append("time step is not the difference of the two levels of this step")
